@@ -305,6 +305,10 @@ impl World for SatWorld {
                             ctx.check("C09", "sat-difference-iter", got == want, || {
                                 format!("difference_iter() yields {:?}, the newly assigned literals are {:?}", got, want)
                             })?;
+                            // an accepted decision is part of the new state
+                            ctx.check("C09", "sat-accepted-decision-not-recorded", newm[v] == Some(p), || {
+                                format!("decide(x{v}={p}) was accepted but the solver's model has x{v} = {:?}", newm[v])
+                            })?;
                             // earlier assignments are never changed by a decision
                             let kept = (0..nv).all(|v| prev[v].is_none() || prev[v] == newm[v]);
                             ctx.check("C09", "sat-decide-keeps-earlier-assignments", kept, || {
